@@ -11,6 +11,8 @@ open TxV TxV.Proto TxV.WideFifo
      all sampled before the edge) -/
 structure DState where
   cfg : Cfg
+  ro : Nat := 0    -- two-caller scenario: index of the `read` caller the real scheduler serves first
+  wo : Nat := 0    -- … and of the `write` caller
   dw : Nat     -- data width: write data must fit (the harness flattens the structs; the model does not truncate data)
   ok : Bool
   s : State
@@ -50,7 +52,7 @@ def stepLine (d : DState) (line : String) : DState × String :=
       else if c.cols == 0 then ({ d with ok := false }, "raise ZeroDivisionError")
       else if !c.valid then ({ d with ok := false }, "raise ValueError")
       else if c.rows == 0 then ({ d with ok := false }, "raise AssertionError")   -- `mod_incr(…, 0)` at elaboration (fifo.py:291)
-      else ({ cfg := c, dw := dw, ok := true, s := init c }, "ok")
+      else ({ cfg := c, dw := dw, ok := true, s := init c, ro := natD t "ro" 0, wo := natD t "wo" 0 }, "ok")
     | _, _, _, _, _ => ({ d with ok := false }, "bad-op")
   | some "cyc" =>
     if !d.ok then (d, "bad-op") else
@@ -62,6 +64,42 @@ def stepLine (d : DState) (line : String) : DState × String :=
        s!"r={showRes o.read} p={showRes o.peek} w={showBool o.write} c={showBool o.clear} " ++
        s!"rdy={showBool (readReady d.cfg d.s)}{showBool (peekReady d.cfg d.s)}{showBool (writeReady d.cfg d.s)} " ++
        s!"ri={showIdx d.s.ridx} wi={showIdx d.s.widx}")
+    | _, _, _, _ => (d, "bad-op")
+  | some "mcyc" =>
+    -- two independent callers per method (`r=a/b p=a/b w=a/b c=x`).  `read` and `write` are exclusive methods:
+    -- the scheduler serves the first caller, in its static order (`ro`/`wo` of the cfg line, probed on the real
+    -- circuit), whose call can run (attempted, method ready, arguments valid); `peek` is nonexclusive: every
+    -- attempted call executes when ready.  The component sees the union of the granted calls.
+    if !d.ok then (d, "bad-op") else
+    let two (key : String) : Option (String × String) :=
+      match (kv? t key).map (·.splitOn "/") with
+      | some [a, b] => some (a, b)
+      | _ => none
+    match two "r", two "p", two "w", (kv? t "c").bind parseB with
+    | some (r0, r1), some (p0, p1), some (w0, w1), some c =>
+      match parseR r0, parseR r1, parseB p0, parseB p1, parseW d.cfg d.dw w0, parseW d.cfg d.dw w1 with
+      | some r0, some r1, some p0, some p1, some w0, some w1 =>
+        let rs := [r0, r1]
+        let ws := [w0, w1]
+        let rorder := if d.ro == 0 then [0, 1] else [1, 0]
+        let worder := if d.wo == 0 then [0, 1] else [1, 0]
+        let rwin := rorder.find? fun k => (rs.getD k none).isSome
+        let wok (k : Nat) : Bool :=
+          match ws.getD k none with
+          | some a => writeReady d.cfg d.s && writeValid d.cfg d.s a
+          | none => false
+        let wwin := worder.find? wok
+        let i : In := { read := rwin.bind (fun k => rs.getD k none), peek := p0 || p1,
+                        write := wwin.bind (fun k => ws.getD k none), clear := c }
+        let (s', o) := step d.cfg d.s i
+        let rres (k : Nat) : String := if rwin == some k then showRes o.read else "-"
+        let pres (b : Bool) : String := if b then showRes o.peek else "-"
+        let wres (k : Nat) : String := showBool (wwin == some k && o.write)
+        ({ d with s := s' },
+         s!"r={rres 0}/{rres 1} p={pres p0}/{pres p1} w={wres 0}/{wres 1} c={showBool o.clear} " ++
+         s!"rdy={showBool (readReady d.cfg d.s)}{showBool (peekReady d.cfg d.s)}{showBool (writeReady d.cfg d.s)} " ++
+         s!"ri={showIdx d.s.ridx} wi={showIdx d.s.widx}")
+      | _, _, _, _, _, _ => (d, "bad-op")
     | _, _, _, _ => (d, "bad-op")
   | _ => (d, "bad-op")
 
